@@ -43,6 +43,10 @@ NEEDS = {
     'C13-agent2': ('C13', 'monotonicity check rewritten as `np.any(np.diff(b) <= 0)`: equivalent for finite values, but a NaN interior boundary is now accepted (comparisons with NaN are False)', ['C13']),
     'C18-agent2': ('C18', 'Scale.dimensionalize converts the scaling factor to the target unit first and multiplies magnitudes: correct for multiplicative units, wrong for offset temperature units (degC, degF), where the conversion is affine', ['C18']),
     'C20-agent2': ('C20', 'boundary-layer ramp factored into a helper with default sigma_b=0.7; kv() calls it without the configured sigma_b: identical for the default, wrong friction profile for any other sigma_b', ['C20']),
+    'C14-agent3': ('C14', 'trajectory_from_step returns the raw carry instead of post_process_fn(carry) as the frame when start_with_input=True: invisible with the default start_with_input=False and whenever post_process_fn is the identity; needs start_with_input=True AND a non-identity post_process_fn', ['C14']),
+    'C16-agent3': ('C16', 'periodic longitude cell bounds computed from roll(x, -+1) with the period added only at the array end instead of aligning each neighbour to its point: identical when the longitudes are increasing after `% period`; needs a grid whose longitude_offset is negative or exceeds one cell width (0 / 2 pi seam inside the array)', ['C16']),
+    'C17-agent3': ('C17', '_dot_interp (matrix / accelerator path of interp) loses the clip of the searchsorted index: needs that path to be executed (TPU dispatch or a direct call; CPU tests never run it) AND a query exactly equal to the last source node, where all weights become zero and the result is 0 instead of fp[-1]', ['C17']),
+    'C19-agent3': ('C19', 'unflatten_dict tests `sub_key in result` (root) instead of `sub_key in sub_dict`: below the first level an existing sub-dictionary is replaced by a fresh one; needs a sub-dictionary >= 2 levels below the root holding more than one entry (or a deep key equal to a top-level key -> KeyError)', ['C19']),
     'C20-agent': ('C20', 'Held-Suarez kt computed as kv()/kf: identical unless kf == 0 (no friction), where it becomes NaN', ['C20']),
 }
 
